@@ -7,6 +7,7 @@ from collections import Counter
 from hypothesis import strategies as st
 
 from ..common import Violation, Skip, run_cases, guarded, rejection_types
+from ..gen.templates import programs_or_templates
 from ..gen.programs import programs, build, render_program
 from .. import sched
 from ..interp import Listener, Unsafe, InterpLimit
@@ -177,7 +178,7 @@ def case_strategy():
     prep = st.tuples(st.sampled_from(PREP), st.integers(0, 40), st.integers(0, 23), st.integers(0, 47)).map(list)
     return st.fixed_dictionaries(
         {
-            "prog": programs(max_stmts=9, configs=True, config_pct=15, externs=False),
+            "prog": programs_or_templates(15, max_stmts=9, configs=True, config_pct=15, externs=False),
             "prep": st.lists(prep, min_size=0, max_size=2),
             "norm": st.tuples(st.sampled_from(NORMALISERS), st.integers(0, 20), st.integers(0, 5)).map(list),
             "val": st.fixed_dictionaries(
